@@ -145,10 +145,10 @@ def export_facts(tag, repo=None, log=None):
         os.makedirs(out[:-5] + ".meta", exist_ok=True)
         shutil.copyfile(rm[-1], os.path.join(out[:-5] + ".meta", "libflacenc.rmeta"))
         os.rename(out + ".new", out)
-        # prune old fact files of this tag (keep the 6 most recent)
+        # prune old fact files of this tag (keep the 12 most recent)
         olds = sorted([f for f in os.listdir(CACHE) if f.startswith("facts-%s-" % tag) and f.endswith(".json")],
                       key=lambda f: os.path.getmtime(os.path.join(CACHE, f)))
-        for f in olds[:-6]:
+        for f in olds[:-12]:
             try:
                 os.remove(os.path.join(CACHE, f))
             except OSError:
